@@ -11,6 +11,7 @@
 #include <optional>
 
 #include "pbt.hpp"
+#include "sqlite_shim.hpp"
 
 namespace api
 {
